@@ -5,5 +5,5 @@ CONSTANTS SmallIds = {1} Widths = {} MaxTok = 1
   MaxQ = 2 Hows = {"shut"} MaxSent = 2 Ops <- OpsQ
 CONSTRAINT BoundQ
 VIEW SkelQ
-ACTION_CONSTRAINT Emit
+ACTION_CONSTRAINT EmitQ
 CHECK_DEADLOCK FALSE
